@@ -29,6 +29,7 @@ fn budget(t: Tier) -> Budget {
         cases: t.pick(400_000, 8_000_000),
         max_len: 400,
         shards: 16,
+        dual_profile: false,
     }
 }
 
